@@ -391,6 +391,14 @@ impl<'a> Bisim<'a> {
         };
         match name {
             "Option" => {
+                // `Option<PhantomData<T>>`: scale-info drops the PhantomData field of `Some`
+                if fields_of("Some").map(|f| f.is_empty()).unwrap_or(false) {
+                    return if matches!(self.cl.classify(&args[0]), CHead::Phantom(_)) {
+                        Ok(())
+                    } else {
+                        div("head-mismatch", trail, format!("registry Option::Some has no field but the code argument is `{}`", nows(&ts(&args[0]))))
+                    };
+                }
                 let Some(f) = fields_of("Some").filter(|f| f.len() == 1) else { return bad_shape(trail) };
                 trail.push("Option.Some".into());
                 self.rel_in(f[0], &args[0], trail)?;
@@ -398,15 +406,21 @@ impl<'a> Bisim<'a> {
                 Ok(())
             }
             "Result" => {
-                let (Some(ok), Some(err)) = (fields_of("Ok").filter(|f| f.len() == 1), fields_of("Err").filter(|f| f.len() == 1)) else {
+                let (Some(ok), Some(err)) = (fields_of("Ok").filter(|f| f.len() <= 1), fields_of("Err").filter(|f| f.len() <= 1)) else {
                     return bad_shape(trail);
                 };
-                trail.push("Result.Ok".into());
-                self.rel_in(ok[0], &args[0], trail)?;
-                trail.pop();
-                trail.push("Result.Err".into());
-                self.rel_in(err[0], &args[1], trail)?;
-                trail.pop();
+                for (label, fs, arg) in [("Result.Ok", ok, &args[0]), ("Result.Err", err, &args[1])] {
+                    trail.push(label.into());
+                    if fs.is_empty() {
+                        // dropped PhantomData field
+                        if !matches!(self.cl.classify(arg), CHead::Phantom(_)) {
+                            return div("head-mismatch", trail, format!("registry variant has no field but the code argument is `{}`", nows(&ts(arg))));
+                        }
+                    } else {
+                        self.rel_in(fs[0], arg, trail)?;
+                    }
+                    trail.pop();
+                }
                 Ok(())
             }
             "BTreeMap" => {
